@@ -1,0 +1,13 @@
+//go:build !verif
+
+package chain
+
+import "github.com/zenon-network/go-zenon/chain/nom"
+
+// Verification hooks (see verif_on.go); compiled to nothing without the `verif` build tag.
+
+func verifOnNewChain(*chain)                                                  {}
+func verifBlockAdded(*accountPool, *nom.AccountBlockTransaction, bool) func() { return verifNop }
+func verifMomentumAdded(*momentumPool, *nom.Momentum)                         {}
+func verifMomentumPopped(*momentumPool, *nom.DetailedMomentum)                {}
+func verifNop()                                                               {}
